@@ -462,11 +462,8 @@ static inline void bg_vec_list_u__resize(bg_adj *a, bg_size k, const bg_list *v)
 
 /* --------------------------- std::unordered_map<Edge, L, hashEdge> (labels) */
 /* NUM(v): numeric value of a label for the ghost sum (0 for non-numeric labels) */
-/* B-SUM: ghost sums stay in range (values below 2^40 in magnitude, sums below 2^60) */
-#define BG_SUM_RANGE(v, sum)                                                  \
-  ((v) > -(1L << 40) && (v) < (1L << 40) && (sum) > -(1L << 60) && (sum) < (1L << 60))
-#define BG_NUM_ZERO(v) 0L
-#define BG_NUM_VAL(v) ((long)(v))
+#define BG_NUM_ZERO(v) ((bg_size)0)
+#define BG_NUM_VAL(v) ((bg_size)(v))
 #define BG_DEFINE_MAP(TAG, T, EQ, ZERO, NUM)                                  \
   static inline void bg_map_##TAG##__ctor(bg_map_##TAG *m) {                  \
     m->s.hasPQ = m->s.hasQP = 0;                                              \
@@ -486,7 +483,6 @@ static inline void bg_vec_list_u__resize(bg_adj *a, bg_size k, const bg_list *v)
     if (bg_scratch_val_##TAG.valid && bg_scratch_val_##TAG.out) {             \
       bg_map_##TAG *o = (bg_map_##TAG *)bg_scratch_val_##TAG.from;            \
       if (bg_scratch_val_##TAG.has) {                                         \
-        BG_ASSUME(BG_SUM_RANGE(NUM(bg_scratch_val_##TAG.val), o->s.restSum)); \
         o->s.restSum += NUM(bg_scratch_val_##TAG.val);                        \
       }                                                                       \
       bg_scratch_val_##TAG.out = 0;                                           \
@@ -554,7 +550,6 @@ static inline void bg_vec_list_u__resize(bg_adj *a, bg_size k, const bg_list *v)
       bg_scratch_val_##TAG.out = 1;                                           \
     } else if (!bg_scratch_val_##TAG.out) {                                   \
       /* check out: the caller may write through the returned reference */    \
-      BG_ASSUME(BG_SUM_RANGE(NUM(bg_scratch_val_##TAG.val), m->s.restSum));   \
       m->s.restSum -= NUM(bg_scratch_val_##TAG.val);                          \
       bg_scratch_val_##TAG.out = 1;                                           \
     }                                                                         \
@@ -578,7 +573,6 @@ static inline void bg_vec_list_u__resize(bg_adj *a, bg_size k, const bg_list *v)
     if (r) {                                                                  \
       m->s.restCount--;                                                       \
       if (!bg_scratch_val_##TAG.out) {                                        \
-        BG_ASSUME(BG_SUM_RANGE(NUM(bg_scratch_val_##TAG.val), m->s.restSum)); \
         m->s.restSum -= NUM(bg_scratch_val_##TAG.val);                        \
       }                                                                       \
       bg_scratch_val_##TAG.has = 0;                                           \
